@@ -992,14 +992,14 @@ fn c18(tier: Tier, seed: u64, case: u64) -> CaseReport {
         }
     }
     // ---- search: <= 100, documented order
-    let matcher = SkimMatcherV2::default();
     for (q, res) in &searches {
         if res.len() > 100 {
             rep.violate("search-more-than-100", "clean", format!("query `{}` returned {}", q, res.len()), replay.clone());
         }
         let mut expect: Vec<(i64, &(String, String, u32, usize))> = all_search
             .iter()
-            .map(|p| (matcher.fuzzy_match(&p.1, q).unwrap_or(0), p))
+            // a fresh matcher per entry: a reused SkimMatcherV2 scores the same pair differently depending on its history
+            .map(|p| (SkimMatcherV2::default().fuzzy_match(&p.1, q).unwrap_or(0), p))
             .collect();
         if q.is_empty() {
             expect.sort_by(|a, b| b.1 .3.cmp(&a.1 .3).then(a.1 .1.len().cmp(&b.1 .1.len())).then(a.1 .1.cmp(&b.1 .1)).then(a.1 .0.cmp(&b.1 .0)).then(a.1 .2.cmp(&b.1 .2)));
